@@ -20,6 +20,7 @@ mod scen_mmio;
 mod scen_net;
 mod scen_pci;
 mod scen_vq;
+mod scen_vsock;
 mod zoo;
 mod tmake;
 mod transport;
@@ -125,6 +126,7 @@ fn main() {
         "pci" => family_pci(&args),
         "console" => family_generic(&args, "console", |a| scen_console::all_params(a.tier == "thorough", a.seed), |v| scen_console::ConParams::from_json(v), |p| p.to_json(), |p, sc| scen_console::run(p, sc)),
         "net" => family_generic(&args, "net", |a| scen_net::all_params(a.tier == "thorough", a.seed), |v| scen_net::NetParams::from_json(v), |p| p.to_json(), |p, sc| scen_net::run(p, sc)),
+        "vsock" => family_generic(&args, "vsock", |a| scen_vsock::all_params(a.extra.first().map(|s| s.as_str()).unwrap_or("random"), a.tier == "thorough", a.seed), |v| scen_vsock::VsParams::from_json(v), |p| p.to_json(), |p, sc| scen_vsock::run(p, sc)),
         "blk" => family_generic(&args, "blk", |a| scen_blk::all_params(a.tier == "thorough", a.seed), |v| scen_blk::BlkParams::from_json(v), |p| p.to_json(), |p, sc| scen_blk::run(p, sc)),
         f => {
             eprintln!("unknown family {f}");
